@@ -35,15 +35,33 @@ theorem checkShellName_pos (lower : String → String) (pf : Platform) (node : O
         · simp only [List.mem_singleton] at h; subst h; exact ⟨n, rfl, rfl⟩
 
 /-- runner-label, unknown label: at the label (also when it comes out of a matrix row: at the row's value) -/
-theorem verifyRunnerLabel_pos (lower : String → String) (label : Str) :
-    ∀ d ∈ (verifyRunnerLabel lower label).2, d.pos = label.pos := by
+theorem knownLoop_pos (lc : LabelCfg) (label : Str) : ∀ (ks : List String) (ds : List Diag),
+    knownLoop lc label ks = some ds → ∀ d ∈ ds, d.pos = label.pos := by
+  intro ks
+  induction ks with
+  | nil => intro ds h; simp [knownLoop] at h
+  | cons k rest ih =>
+    intro ds h d hd
+    simp only [knownLoop] at h
+    split at h
+    · simp only [Option.some.injEq] at h; subst h
+      simp only [List.mem_singleton] at hd; subst hd; rfl
+    · simp only [Option.some.injEq] at h; subst h; cases hd
+    · exact ih ds h d hd
+
+/-- also with the labels of a configuration file (a malformed pattern is reported at the label it was tried on) -/
+theorem verifyRunnerLabel_pos (lower : String → String) (label : Str) (lc : LabelCfg := {}) :
+    ∀ d ∈ (verifyRunnerLabel lower label lc).2, d.pos = label.pos := by
   intro d h
   simp only [verifyRunnerLabel] at h
   split at h
   · cases h
   · split at h
     · cases h
-    · simp only [List.mem_singleton] at h; subst h; rfl
+    · split at h
+      · rename_i ds hk
+        exact knownLoop_pos lc label _ ds hk d h
+      · simp only [List.mem_singleton] at h; subst h; rfl
 
 /-- runner-label, conflict: at the later label, naming the earlier one and its position -/
 theorem conflictDiag_pos (label found : Str) : (conflictDiag label found).pos = label.pos ∧
